@@ -22,12 +22,8 @@ def run(chk):
         "the Coq model of CRC-8/16 (coq/base/Crc.v upd8/upd16) mirrors src/crc.rs; tables are regenerated from the source on every run, the update expressions are checked textually and by differential run",
         "whole-frame behaviour (which bytes a frame occupies) is decided on the real decoder by exhaustive fault enumeration, not by the theorem",
     ]
-    proof_ok = vlib.proof_stage(
-        chk, coq_dirs=[BASE], build_dir=BASE, qflags="-Q . FlacBase",
-        requires=["Coq.Lists.List", "Coq.NArith.NArith", "FlacBase.Bits", "FlacBase.Crc", "FlacBase.Pins"], theorems=THEOREMS,
-        obligation_files=[(BASE, ["Res.v", "Bits.v", "Crc.v", "Pins.v"])],
-        gen_steps=["python3 %s/tools/gen_crc.py %s %s/GenCrc.v" % (VERIF, vlib.REPO, BASE)],
-        )
+    from checks import codec_common
+    proof_ok = codec_common.proof_stage(chk, "C05")
 
     # ---- implementation side
     ok, binp, out = vlib.cargo_build(os.path.join(VERIF, "harness"), "c05", "release")
